@@ -16,11 +16,11 @@ TRUSTED_BASE = [
 # which components of E a property's theorems depend on (DESIGN.md §4.2)
 CONES = {
     "C01": {"compiler", "engine"}, "C02": {"engine", "scan"}, "C03": {"compiler", "engine", "scan", "captures"},
-    "C04": {"scan"}, "C05": {"compiler", "engine", "scan"}, "C06": {"engine", "scan"},
+    "C04": {"scan", "api"}, "C05": {"compiler", "engine", "scan", "api", "captures"}, "C06": {"engine", "scan"},
     "C07": {"compiler"}, "C08": {"compiler", "engine"}, "C09": {"compiler", "engine"}, "C10": {"compiler"},
-    "C11": {"compiler", "engine"}, "C12": {"compiler", "engine"}, "C13": {"compiler", "engine", "scan"},
-    "C14": {"compiler"}, "C15": {"scan", "captures"}, "C16": {"engine", "scan"}, "C17": {"compiler"},
-    "C18": {"scan"}, "C19": {"compiler", "engine", "captures"}, "C20": {"compiler", "engine"},
+    "C11": {"compiler", "engine"}, "C12": {"compiler", "engine"}, "C13": {"compiler", "engine", "scan", "api"},
+    "C14": {"compiler"}, "C15": {"scan", "captures"}, "C16": {"engine", "scan", "api"}, "C17": {"compiler"},
+    "C18": {"scan", "api"}, "C19": {"compiler", "engine", "captures"}, "C20": {"compiler", "engine"},
 }
 
 
@@ -130,6 +130,8 @@ def attribute(case):
     b = rxlib.norm(rxlib.driver([c.dline(0, hi, "eng")]).get("0"))
     if a == b:
         return "compiler"
+    if ("ERR:MatchesEmptyString" in (a, b)) and a[:3] != b[:3]:
+        return "api"            # the nullability gate / empty-input special case of the API layer
     # spans differ?  (a marker replacement shows the spans)
     sp = Case(c.pattern, c.flags, "replace", c.input, "\u0001$0\u0002", dialect=c.dialect, mode=c.mode)
     a2 = rxlib.norm(rxlib.harness([sp.hline(0)]).get("0"))
